@@ -1,6 +1,7 @@
 """C03 -- results depend on the projective object, not on its homogeneous representative."""
 from __future__ import annotations
 
+import functools
 import types
 
 import numpy as np
@@ -383,7 +384,7 @@ def install(ctx):
                 continue
             if name.startswith("_") and name not in ("__add__", "__sub__", "__mul__", "__eq__"):
                 continue
-            if isinstance(raw, (property, types.FunctionType)):
+            if isinstance(raw, (property, types.FunctionType, functools.cached_property)):
                 core.wrap_method(c, name, post_twin)
             elif isinstance(raw, classmethod) and name not in RAW_OPS:
                 core.wrap_method(c, name, post_twin)  # alternative constructors: Conic.from_points / from_tangent / ..., Transformation.from_points
